@@ -8,11 +8,15 @@ chain_transform.py (`ChainTransform.apply`) and polyaffine.py / polyaffine.c
 
 Exact rational arithmetic.  Transcendental / iterative numerics are *inputs* of
 the model: `‖r‖`, `sin`, `cos`, `exp`, the SVD factors, the cube root, the
-Gaussian weights.  `rotation_mat2vec` (quaternion eigen-decomposition + `acos`)
-and `log` are not modelled: the correspondence check closes that loop
-numerically.
+Gaussian weights.  The literal tables and constants of aff.py (param_inds, `_set_param` index
+tables, preconditioner layout, compose class selection, thresholds) come from
+`Gen/C08Tables.lean`, regenerated from the source text at every run.
+`rotation_mat2vec` (quaternion eigen-decomposition + `acos`), `from_matrix44` in full, the
+helpers, object histories, `ChainTransform` construction and `PolyAffine` in full are in
+`Model/C08B.lean`.
 -/
 import NipyVerif.Model.Common
+import NipyVerif.Gen.C08Tables
 namespace NipyVerif.C08
 
 /-! ### 3-vectors, 3×3 matrices, affine maps (4×4 with last row `0 0 0 1`) -/
@@ -116,14 +120,15 @@ def toList (a : Aff) : List Rat :=
    a.m.a31, a.m.a32, a.m.a33, a.t.z]
 end Aff
 
-/-! ### Constants of affine.py (binary64 values, exact) -/
+/-! ### Constants of affine.py (binary64 values, exact; regenerated from the source text by the
+translator `harness/props/c08_tables.py` into `Gen/C08Tables.lean`) -/
 
 /-- `MAX_ANGLE = 1e10 * 2 * np.pi` -/
-def maxAngle : Rat := (8235496645826427 : Rat) / (2 ^ 17 : Nat)
+def maxAngle : Rat := Gen.C08.maxAngle
 /-- `SMALL_ANGLE = 1e-30` -/
-def smallAngle : Rat := (178405961588245 : Rat) / (2 ^ 147 : Nat)
+def smallAngle : Rat := Gen.C08.smallAngle
 /-- `MAX_DIST = 1e10` -/
-def maxDist : Rat := 10000000000
+def maxDist : Rat := Gen.C08.maxDist
 
 /-- `threshold(x, th) = np.maximum(np.minimum(x, th), -th)` -/
 def threshold (x th : Rat) : Rat :=
@@ -195,10 +200,14 @@ def toList (v : Vec12) : List Rat :=
   [v.p0, v.p1, v.p2, v.p3, v.p4, v.p5, v.p6, v.p7, v.p8, v.p9, v.p10, v.p11]
 end Vec12
 
-/-- `preconditioner(radius)` -/
+/-- the 12-vector with entries `f 0 … f 11` -/
+def Vec12.ofFn (f : Nat → Rat) : Vec12 :=
+  ⟨f 0, f 1, f 2, f 3, f 4, f 5, f 6, f 7, f 8, f 9, f 10, f 11⟩
+
+/-- `preconditioner(radius)`: `1/radius` in the slots the source lays out so, `1` elsewhere -/
 def preconditioner (radius : Rat) : Vec12 :=
   let r := 1 / radius
-  ⟨1, 1, 1, r, r, r, r, r, r, r, r, r⟩
+  Vec12.ofFn (fun i => if Gen.C08.precondInv.getD i false then r else 1)
 
 /-- external numerics of one `to_matrix44` call -/
 structure Ext where
@@ -225,14 +234,14 @@ deriving DecidableEq, Repr
 
 def Cls.all : List Cls := [.affine, .affine2d, .rigid, .rigid2d, .similarity, .similarity2d]
 
-/-- `param_inds` -/
+/-- `param_inds` (the literal lists of the source, regenerated) -/
 def paramInds : Cls → List Nat
-  | .affine => [0, 1, 2, 3, 4, 5, 6, 7, 8, 9, 10, 11]
-  | .affine2d => [0, 1, 5, 6, 7, 11]
-  | .rigid => [0, 1, 2, 3, 4, 5]
-  | .rigid2d => [0, 1, 5]
-  | .similarity => [0, 1, 2, 3, 4, 5, 6]
-  | .similarity2d => [0, 1, 5, 6]
+  | .affine => Gen.C08.indsAffine
+  | .affine2d => Gen.C08.indsAffine2D
+  | .rigid => Gen.C08.indsRigid
+  | .rigid2d => Gen.C08.indsRigid2D
+  | .similarity => Gen.C08.indsSimilarity
+  | .similarity2d => Gen.C08.indsSimilarity2D
 
 /-- `_get_param`: `(vec12 / precond)[param_inds]` -/
 def getParam (c : Cls) (v pc : Vec12) : List Rat :=
@@ -241,8 +250,8 @@ def getParam (c : Cls) (v pc : Vec12) : List Rat :=
 /-- `(target index in vec12, source index in p)` pairs written by `_set_param`;
     `Similarity` / `Similarity2D` replicate the scale into slots 6, 7, 8. -/
 def setPairs : Cls → List (Nat × Nat)
-  | .similarity => [(0, 0), (1, 1), (2, 2), (3, 3), (4, 4), (5, 5), (6, 6), (7, 6), (8, 6)]
-  | .similarity2d => [(0, 0), (1, 1), (5, 2), (6, 3), (7, 3), (8, 3)]
+  | .similarity => Gen.C08.simTargets.zip Gen.C08.simSources
+  | .similarity2d => Gen.C08.sim2dTargets.zip Gen.C08.sim2dSources
   | c => (paramInds c).zip (List.range (paramInds c).length)
 
 /-- the two similarity classes index `p` with a fancy index (IndexError when short,
@@ -293,11 +302,24 @@ def simFix (d0 : Bool) (A : M3) (s : Rat) : M3 × Bool :=
 
 def subset (a b : List Nat) : Bool := a.all (fun i => b.contains i)
 
+def Cls.ofIdx : Nat → Cls
+  | 1 => .affine2d | 2 => .rigid | 3 => .rigid2d | 4 => .similarity | 5 => .similarity2d | _ => .affine
+
+/-- the `if / elif / else` of `Affine.compose` as the translator read it: `(test, result)` rules in
+    source order (test 0: `self_inds ⊆ other_inds`, otherwise `other_inds ⊆ self_inds`; result 0:
+    `other.__class__`, otherwise `self.__class__`), then the fallback class -/
+def dispatchWith (rules : List (Nat × Nat)) (els : Nat) (self other : Cls) : Cls :=
+  match rules with
+  | [] => Cls.ofIdx els
+  | (t, r) :: rest =>
+      if (if t = 0 then subset (paramInds self) (paramInds other)
+          else subset (paramInds other) (paramInds self))
+      then (if r = 0 then other else self)
+      else dispatchWith rest els self other
+
 /-- class of `self.compose(other)` for two affine-family transforms -/
 def dispatch (self other : Cls) : Cls :=
-  if subset (paramInds self) (paramInds other) then other
-  else if subset (paramInds other) (paramInds self) then self
-  else .affine
+  dispatchWith Gen.C08.dispatchRules Gen.C08.dispatchElse self other
 
 /-! ### Transforms, generic composition, chains -/
 
